@@ -346,6 +346,10 @@ class Interp(object):
     for it in range(cap):
       c, _ = self.run(None, state, var_syms, graph=cond_g, capture_vals=[])
       c = c[0]
+      if is_sym(c):
+        c0 = c.reshape(-1)[0] if c.ndim else c[()]
+        if c0.op == "bconst":
+          c = np.asarray(bool(c0.attr))
       if not is_sym(c):
         if not bool(np.asarray(c)):
           break
